@@ -51,13 +51,13 @@ def gen_small(rng):
     return d
 
 
-def text_of(desc, fmt, key_style, graph_id=None, drop_id_of=None):
+def text_of(desc, fmt, key_style, graph_id=None, drop_id_of=None, drop_field='NodeID'):
     import networkx as nx
     g = rawgraph.to_nx(desc, key_style=key_style, graph_id=graph_id)
     if drop_id_of is not None:
-        # an ill-formed model text: the k-th node has no NodeID (the importers must refuse it)
+        # an ill-formed model text: the k-th node has no NodeID (the importers must refuse it) / no Class (they may not notice)
         k = list(g.nodes)[drop_id_of % len(g.nodes)]
-        g.nodes[k].pop('NodeID', None)
+        g.nodes[k].pop(drop_field, None)
     if fmt == 'graphml':
         return '\n'.join(nx.generate_graphml(g))
     return json.dumps(nx.readwrite.node_link_data(g))
@@ -92,7 +92,7 @@ def gen_op(rng, gids, live):
         return {'op': 'import_string', 'g': g, 'desc': gen_small(rng), 'fmt': rng.choice(['graphml', 'json']), 'keys': rng.randrange(3)}
     if k < 72:
         return {'op': 'import_illformed', 'g': g, 'desc': gen_small(rng), 'fmt': rng.choice(['graphml', 'json']), 'keys': rng.randrange(3),
-                'drop': rng.randrange(5), 'direct': False}
+                'drop': rng.randrange(5), 'direct': False, 'field': rng.choice(['NodeID', 'NodeID', 'Class'])}
     if k < 78:
         return {'op': 'import_direct', 'g': g, 'desc': gen_small(rng), 'fmt': rng.choice(['graphml', 'json']), 'keys': rng.randrange(3)}
     if k < 84:
@@ -143,7 +143,8 @@ def apply(imp, cls, op):
         if op['direct']:
             return imp.import_graph_from_string_direct(graph_string=text_of(op['desc'], op['fmt'], op['keys'], graph_id=op['g'],
                                                                             drop_id_of=op['drop']))
-        return imp.import_graph_from_string(graph_string=text_of(op['desc'], op['fmt'], op['keys'], drop_id_of=op['drop']), graph_id=op['g'])
+        return imp.import_graph_from_string(graph_string=text_of(op['desc'], op['fmt'], op['keys'], drop_id_of=op['drop'],
+                                                                 drop_field=op.get('field', 'NodeID')), graph_id=op['g'])
     if o == 'delete_graph':
         return g.delete_graph() if op['via'] == 'graph' else imp.delete_graph(graph_id=op['g'])
     if o == 'delete_then_reimport':
@@ -156,11 +157,24 @@ def apply(imp, cls, op):
     raise AssertionError(o)
 
 
+def verdicts(imp, cls, snap):
+    """What validate_graph() says about each graph of the store (part of a graph's observable content)."""
+    out = {}
+    for gid in snap:
+        try:
+            cls(graph_id=gid, importer=imp).validate_graph(validate_json=False)
+            out[gid] = 'valid'
+        except Exception as e:
+            out[gid] = type(e).__name__
+    return out
+
+
 def run_history(ctx, store, imp, cls, hist):
     imp.delete_all_graphs()
     used_ids = set()       # ids ever used on this store in this history (disjoint store keeps emptied keys)
     nontriv = False
     before, facts = canon.store_snapshot(imp)
+    verdict_before = verdicts(imp, cls, before)
     for step, op in enumerate(hist):
         ctx.count('op:' + op['op'])
         if op['op'] in ('import_string', 'delete_then_reimport') and op['g'] in before:
@@ -172,6 +186,7 @@ def run_history(ctx, store, imp, cls, hist):
         except Exception as e:
             res, exc = None, f'{type(e).__name__}: {str(e)[:150]}'
         after, facts = canon.store_snapshot(imp)
+        verdict_after = verdicts(imp, cls, after)
         ctx.count('frame-checks')
         if len(before) >= 2:
             ctx.count('frame-checks:2+graphs')
@@ -179,7 +194,7 @@ def run_history(ctx, store, imp, cls, hist):
         w['exception'] = exc
         if op['op'] == 'import_illformed':
             ctx.count('import-illformed:refused' if exc else 'import-illformed:accepted')
-            if exc is None:
+            if exc is None and op.get('field', 'NodeID') == 'NodeID':
                 # (the *_direct entry points do not inspect node ids; only the checking importers are driven with such text)
                 # a store holding a node without NodeID is outside the domain of the statement: the history ends here
                 return True
@@ -189,6 +204,11 @@ def run_history(ctx, store, imp, cls, hist):
             for gid in set(before) | set(after):
                 if gid in tg:
                     continue
+                if gid in verdict_before and gid in verdict_after and verdict_before[gid] != verdict_after[gid]:
+                    ctx.violation(f'C04/{op["op"]}-changes-validity-of-other-graph', 'an operation addressed to one graph leaves every other '
+                                  'graph unchanged - what validate_graph() says about it included',
+                                  dict(w, other=gid, before=verdict_before[gid], after=verdict_after[gid]))
+                    return False
                 if not canon.typed_equal(before.get(gid), after.get(gid)):
                     ctx.violation(f'C04/{op["op"]}-changes-other-graph', 'an operation addressed to one graph leaves every other '
                                   'graph unchanged', dict(w, other=gid, diff=canon.diff(before.get(gid), after.get(gid))))
@@ -259,6 +279,7 @@ def run_history(ctx, store, imp, cls, hist):
             ctx.violation('C04/delete-all-leaves-graphs', 'delete_all_graphs empties the store', dict(w, left=sorted(after)))
             return False
         before = after
+        verdict_before = verdict_after
     ctx.seen([store, hist], nontriv)
     return True
 
